@@ -38,7 +38,7 @@ MODULES = {
     'C08': ['contracts.pit_layers', 'contracts.pit_graph', 'contracts.whole_pit'],
     'C01': ['contracts.pit_layers', 'contracts.pit_graph', 'contracts.whole_pit'],
     'C04': ['contracts.pit_layers', 'contracts.wrappers', 'contracts.c15', 'contracts.pit_graph', 'contracts.whole_pit'],
-    'C12': ['contracts.pit_layers', 'contracts.wrappers', 'contracts.c16', 'contracts.c13', 'contracts.c10'],
+    'C12': ['contracts.pit_layers', 'contracts.wrappers', 'contracts.c16', 'contracts.c13', 'contracts.c10', 'contracts.odimo'],
     'C05': ['contracts.mps_layers', 'contracts.wrappers', 'contracts.pit_graph', 'contracts.whole_mps'],
     'C02': ['contracts.mps_layers', 'contracts.whole_mps'],
     'C06': ['contracts.wrappers', 'contracts.pit_graph', 'contracts.whole_supernet'],
